@@ -17,9 +17,12 @@
        denomination d, coins + reserves after, plus the liquidity recorded before by the pools whose token is d,
        is at most coins + reserves before plus the liquidity recorded after ([settles]); so a denomination
        that is no pool's liquidity token never grows ([C01_settlement_conserves]).
-   NOT proved (evaluated by the model on the real before/after states of every seal of the stf stream,
-   Cases/Reflect.v [supply], [seal_issuance]): the explicit issuance of the remaining seal steps (bootstrap of
-   the built-in pools, peg nudge, TIP-909 subsidy) and the proposer reward in one inequality with the above. *)
+     - and a whole seal - bootstrap of the built-in pools, settlement, peg, TIP-909 subsidy, proposer
+       reward - for ERG and every custom denomination ([C01_seal_unpegged]): nothing is created beyond the
+       one-off reserves of a built-in pool that did not exist yet.
+   NOT proved: MEL and SYM across the peg and the TIP-909 subsidy, which mint them by design; that issuance is
+   evaluated by the model on the real before/after states of every seal of the stf stream (Cases/Reflect.v
+   [supply], [seal_issuance]). *)
 From MelVerif Require Import STF.Model STF.Proofs.MapLemmas STF.Proofs.Faucet STF.Proofs.Coins STF.Proofs.Supply STF.Proofs.Pool
   STF.Proofs.SealCoins STF.Proofs.HashFacts STF.Proofs.BatchSupply STF.Proofs.SealSupply STF.Proofs.SealLift STF.Proofs.Witness2 STF.Proofs.Witness3 STF.Proofs.Witness.
 Open Scope N_scope.
@@ -228,3 +231,30 @@ Theorem C01_seal_custom_denominations : forall K, NoDup (map poolkey_code K) -> 
   settles K SO (Custom h) s s'.
 Proof. exact seal_settles_custom. Qed.
 Print Assumptions C01_seal_custom_denominations.
+
+(* ---- a whole seal for ERG and every custom denomination ([unpegged d]: d is neither MEL nor SYM, the pair the
+   peg and the subsidy mint by design).  [bootstrap K d s] is the reserve of d in the built-in pools that this
+   seal creates (zero once they exist). *)
+Theorem C01_seal_unpegged : forall K, NoDup (map poolkey_code K) -> forall SO, In MS K /\ In ME K /\ In ES K ->
+  forall s a s' d,
+  unpegged d ->
+  seal SO s a = Ok s' ->
+  legacy_net s && (s_height s <? 978392) = false ->
+  (forall t k, In t (sorted_txs s) -> tx_pool t = Some k -> In k K /\ LDk SO k <> fst k /\ LDk SO k <> snd k) ->
+  NoDup (key_pairs (sorted_txs s)) ->
+  (forall t c, In t (sorted_txs s) -> s_coins s !! key0 t = Some c -> as_declared c (out0 t)) ->
+  (forall t c, In t (sorted_txs s) -> s_coins s !! key1 t = Some c -> as_declared c (out1 t)) ->
+  nsum (map (fun t => cd_value (out0 t)) (sorted_txs s)) < U128 ->
+  nsum (map (fun t => cd_value (out1 t)) (sorted_txs s)) < U128 ->
+  (forall s2 s3, process_swaps (create_builtins s) = Ok s2 -> process_deposits SO s2 = Ok s3 ->
+     (forall k p'' m, In k K ->
+        pool_deposit (pool_at s2 k)
+          (nsum (map (fun t => cd_value (out0 t)) (txs_for_pool (List.filter (is_deposit_request s2) (sorted_txs s2)) k)))
+          (nsum (map (fun t => cd_value (out1 t)) (txs_for_pool (List.filter (is_deposit_request s2) (sorted_txs s2)) k))) = Ok (p'', m) ->
+        p_liqs (pool_at s2 k) + m < U128) /\
+     (forall k p, In k K -> get_pool s3 k = Some p -> p_lefts p < U128 /\ p_rights p < U128)) ->
+  coin_supply d (s_coins s') + psum K d s' + liq_of K SO d s
+  <= coin_supply d (s_coins s) + psum K d s + liq_of K SO d s' + bootstrap K d s.
+Proof. exact seal_settles_unpegged. Qed.
+Print Assumptions C01_seal_unpegged.
+
